@@ -108,6 +108,12 @@ def _e1_models(thorough):
             '<sensor><jointpos joint="j0_0"/><framepos objtype="site" objname="s1"/></sensor>\n'
             '<keyframe><key qpos="0.1 0.2" ctrl="0.3 0.4"/></keyframe>\n')
     out.append(("features", A.tree_mjcf((-1, 0), ["hinge", "slide"], gattr="", sections=feat)))
+    # three mocap bodies (mocap_pos has stride 3, mocap_quat stride 4), a weld to one of them and a stateful actuator
+    mocap = "".join('    <body name="mc%d" mocap="true" pos="%d 1 1"><geom size="0.05" contype="0" conaffinity="0"/></body>\n' % (i, i)
+                    for i in range(3))
+    feat2 = ('<equality><weld body1="b1" body2="mc1" solref="0.05 1"/></equality>\n'
+             '<actuator><general joint="j0_0" dyntype="filter" dynprm="0.1" gainprm="2"/><motor joint="j1_0"/></actuator>\n')
+    out.append(("mocap3", A.tree_mjcf((-1, 0), ["hinge", "slide"], gattr="", sections=feat2, world_extra=mocap)))
     return out
 
 
@@ -157,6 +163,10 @@ def _e1(chunk):
             if m.nu:
                 d.ctrl[:] = 0.25
             d.qvel[:] = 0.1
+            for k in range(m.nmocap):       # a distinct, non-default pose per mocap body
+                d.mocap_pos[k] = (0.3 + 0.1 * k, -0.2 * (k + 1), 0.5 + 0.05 * k)
+                qk = np.array([0.9, 0.1 * (k + 1), -0.3, 0.2 + 0.1 * k])
+                d.mocap_quat[k] = qk / np.linalg.norm(qk)
             for _ in range(3):
                 lib.mj_step(m, d)
             t0 = d.time
@@ -173,6 +183,12 @@ def _e1(chunk):
                     qs.append((np.array(d.qpos[qa:qa + nq]), np.array(d.qvel[da:da + nv])))
                 st[names[b]] = qs
             ctrl0 = np.array(d.ctrl) if m.nu else None
+            act0 = np.array(d.act) if m.na else None
+            moc = {}
+            for b in range(1, m.nbody):
+                k = int(m.body_mocapid[b])
+                if k >= 0:
+                    moc[names[b]] = (np.array(d.mocap_pos[k]), np.array(d.mocap_quat[k]))
             victim = None
             if edit == "add":
                 if lib.c.vg_spec_add_free_sphere(sp.ptr, b"newbody", 5.0, 5.0, 5.0, 0.1):
@@ -216,6 +232,19 @@ def _e1(chunk):
                                        {"model": name, "xml": xml, "edit": edit, "body": n2[b]})
             if ctrl0 is not None and mm.nu == len(ctrl0) and not np.array_equal(dd.ctrl, ctrl0):
                 part.violation("mj_recompile does not preserve ctrl", "edit %s on %s" % (edit, name), {"model": name, "xml": xml, "edit": edit})
+            if act0 is not None and mm.na == len(act0) and not np.array_equal(dd.act, act0):
+                part.violation("mj_recompile does not preserve act", "edit %s on %s: %s -> %s" % (edit, name, act0, np.array(dd.act)),
+                               {"model": name, "xml": xml, "edit": edit})
+            for b in range(1, mm.nbody):
+                k = int(mm.body_mocapid[b])
+                if k >= 0 and n2[b] in moc:
+                    p0, q0 = moc[n2[b]]
+                    if not (np.array_equal(dd.mocap_pos[k], p0) and np.array_equal(dd.mocap_quat[k], q0)):
+                        part.violation("mj_recompile does not preserve the pose of a mocap body",
+                                       "edit %s on %s: body %s mocap pose (%s, %s) -> (%s, %s)" % (edit, name, n2[b], p0, q0,
+                                                                                               np.array(dd.mocap_pos[k]), np.array(dd.mocap_quat[k])),
+                                       {"model": name, "xml": xml, "edit": edit, "body": n2[b]})
+                    part.add("mocap_poses_compared")
             lib.mj_deleteData(d.ptr); d.ptr = None
             lib.mj_deleteModel(m.ptr); m.ptr = None
             lib.mj_deleteSpec(sp)
